@@ -20,6 +20,9 @@ REPO = "/repo"
 
 # (property, relative file, old text, new text, substring of the unit expected to fail)
 MUTANTS = [
+    ("C36", "unified_planning/model/state.py", "            if _father is not None or self._is_nondefault(fluent, value):\n", "            if True:\n", "UPState.__init__ [no father]"),
+    ("C36", "unified_planning/model/state.py", "            if _father is not None or self._is_nondefault(fluent, value):\n", "            if self._is_nondefault(fluent, value):\n", "UPState.__init__ [with a father]"),
+    ("C36", "unified_planning/model/state.py", "            self._ancestors = _father._ancestors + 1\n", "            self._ancestors = _father._ancestors\n", "UPState.__init__ [with a father]"),
     ("C25", "unified_planning/model/delta_stn.py", "        if right_bound is not None:\n            self.add(right_event, left_event, right_bound)", "        if right_bound:\n            self.add(right_event, left_event, right_bound)", "insert_interval"),
     ("C25", "unified_planning/model/delta_stn.py", "            self.add(left_event, right_event, -left_bound)", "            self.add(left_event, right_event, left_bound)", "insert_interval"),
     ("C25", "unified_planning/model/delta_stn.py", "            self.add(right_event, left_event, right_bound)", "            self.add(left_event, right_event, right_bound)", "insert_interval"),
